@@ -1,10 +1,10 @@
 (* C21 — Escaping and encoding helpers are safe and invertible.
    Property theorems only; proofs are in Lib/C21_Utf8.v, Lib/C21_Pct.v,
-   C21/Proofs.v, C21/Proofs2.v, C21/Proofs3.v.
+   C21/Proofs.v ... C21/Proofs6.v.
    Text = list of code points, bytes = list of byte values. *)
 From Coq Require Import List NArith.
 Import ListNotations.
-From TV Require Import Lib.Obs Lib.C21_Utf8 Lib.C21_Pct C21.Model C21.Run C21.Proofs C21.Proofs2 C21.Proofs3.
+From TV Require Import Lib.Obs Lib.C21_Utf8 Lib.C21_Pct C21.Model C21.Run C21.Proofs C21.Proofs2 C21.Proofs3 C21.Proofs4 C21.Proofs5 C21.Proofs6.
 Local Open Scope N_scope.
 
 (* ---------------- HTML ---------------- *)
@@ -90,6 +90,36 @@ Theorem C21_utf8_helpers_reject_other_types :
 Proof. exact py_utf8_rejects. Qed.
 Print Assumptions C21_utf8_helpers_reject_other_types.
 
+(* None, and values already of the target type, pass through unchanged *)
+Theorem C21_utf8_helpers_fixed_points :
+  forall b s,
+    py_utf8 (PBytes b) = Ok (PBytes b) /\ py_utf8 PNone = Ok PNone /\
+    py_to_unicode (PStr s) = Ok (PStr s) /\ py_to_unicode PNone = Ok PNone.
+Proof. exact py_fixed_points. Qed.
+Print Assumptions C21_utf8_helpers_fixed_points.
+
+(* recursive_unicode: whatever it returns contains no byte string at any depth
+   (lists, tuples, dict keys and values) ... *)
+Theorem C21_recursive_unicode_leaves_no_bytes :
+  forall v r, rec_unicode v = Ok r -> has_bytes r = false.
+Proof. exact rec_unicode_no_bytes. Qed.
+Print Assumptions C21_recursive_unicode_leaves_no_bytes.
+
+(* ... and it can only fail with UnicodeDecodeError, and only if the value holds a byte string *)
+Theorem C21_recursive_unicode_only_fails_on_bytes :
+  forall v e, rec_unicode v = Err e -> e = EUnicodeDecode /\ has_bytes v = true.
+Proof. exact rec_unicode_errors. Qed.
+Print Assumptions C21_recursive_unicode_only_fails_on_bytes.
+
+(* the second code path of url_unescape: an ASCII bytes argument (what url_escape
+   produces, encoded) is treated exactly like the equal str, for both encodings
+   and both plus modes - so every URL round-trip theorem above also holds when the
+   escaped text is passed as bytes *)
+Theorem C21_url_unescape_bytes_argument_equals_str :
+  forall e enc plus, ascii e -> url_unescape (SBytes e) enc plus = url_unescape (SStr e) enc plus.
+Proof. exact url_unescape_bytes_eq_str. Qed.
+Print Assumptions C21_url_unescape_bytes_argument_equals_str.
+
 (* ---------------- JSON ---------------- *)
 (* json_encode(v) never contains the two characters less-than, slash in a row,
    for every JSON value *)
@@ -98,8 +128,22 @@ Theorem C21_json_encode_never_contains_lt_slash :
 Proof. exact json_encode_no_lt_slash. Qed.
 Print Assumptions C21_json_encode_never_contains_lt_slash.
 
-(* NOT PROVED (json.loads is not modelled): forall v, json_decode (json_encode v) = v.
-   That half of the statement is checked on the implementation by the harness only. *)
+(* json_decode(json_encode(v)) == v for every JSON value (null, booleans, integers
+   of any size, strings, lists, string-keyed objects, nested to any depth) whose
+   strings and keys hold Unicode scalar values and whose objects have distinct
+   keys (Python dicts always do).  json_loads is the model of json.loads on a str:
+   the result is JOk v, i.e. no error, no float, fuel not exhausted. *)
+Theorem C21_json_decode_inverts_encode :
+  forall v, jv_okb v = true -> json_loads (json_encode v) = JOk v.
+Proof. exact json_roundtrip. Qed.
+Print Assumptions C21_json_decode_inverts_encode.
+
+(* the surrogate-freeness hypothesis is needed: two adjacent lone surrogates are
+   merged into one astral character by the decoder (stdlib json behaviour) *)
+Theorem C21_json_roundtrip_adjacent_lone_surrogates_refuted :
+  exists v, json_loads (json_encode v) <> JOk v.
+Proof. exists (JStr [56319; 56320]). vm_compute. discriminate. Qed.
+Print Assumptions C21_json_roundtrip_adjacent_lone_surrogates_refuted.
 
 (* ---------------- query strings ---------------- *)
 (* For every list of (name, value) byte strings: escaping each side with
@@ -128,7 +172,8 @@ Example C21_hypotheses_nontrivial :
   valid_text [60; 233; 128512; 38] /\ bytes [255; 37; 43; 0] /\
   utf8_decode [240; 159; 152; 128] = Some [128512] /\
   to_unicode_s (SBytes [195; 169; 60]) = Ok [233; 60] /\
-  wf_in (IQsRT [([97; 32; 38], [61; 255]); ([97; 32; 38], [])] false true).
+  wf_in (IQsRT [([97; 32; 38], [61; 255]); ([97; 32; 38], [])] false true) /\
+  jv_okb (JObj [([60; 47], JArr [JStr [128512; 60; 47]; JInt (Zneg 12); JNull]); ([107], JObj [])]) = true.
 Proof.
   repeat split; try reflexivity; repeat constructor.
 Qed.
